@@ -34,3 +34,52 @@ add("C15", "proptest over operation x rank x shape x content classes against a s
     "80 000 (thorough 6 000 000) generated cases over 12 operations, ranks 1-4 and nested lists, signed zeros / subnormals / mixed magnitudes; add/sub/mul/div/outer/transpose/clamp bitwise, Hadamard within 2 ulp of the exact product, mean and dot within a summation bound; mismatched operands must panic.",
     "dot() and product() are not required to refuse mismatched operands (the statement lists refusal for the in-place element-wise operations).",
     "DESIGN.md 4/C15")
+
+add("C01", "proptest over generated architectures; oracle = numerical differentiation of an independent f64 reference network (P1) or of the library's own forward pass with Richardson extrapolation (P2); per-layer public backward() in isolation; one-step learn() differential",
+    "24 000 (thorough 400 000) generated networks per run: depth 1-4 (6), all layer kinds incl. feedback blocks without skips in any fitting order, full kernel/stride/padding/dilation lattice, 7 objectives, soft-max+CE heads; every parameter gradient (sampled above 300) and the input gradient of isolated layers compared with central differences; one SGD learn() step must equal -lr * gradient. Sampling within sizes <= 9x9x3.",
+    "P1 trusts the harness's f64 reference operators (cross-checked against the library's forward pass at three parameter points per case, otherwise P2 is used); cases within 2e-3 of a ReLU kink / pooling tie are discarded and counted.",
+    "DESIGN.md 4/C01")
+add("C02", "proptest over the single-layer configuration lattice and layer sequences; oracle = f64 defining operators with a rounding-error bound, flat-vs-spatial metamorphic relation, fold of the library's own layer forwards",
+    "40 000 (thorough 1 000 000) cases: single dense/convolution/deconvolution/max-pool layers over channels x height x width x filters x kernel x stride x padding x dilation incl. non-square and asymmetric settings, each fed c x h x w and flat; plus 2-5-layer sequences. Pre-activation within 4(n+1)eps*sum|terms| of the definition (max-pool exact), both representations bitwise equal, Network::forward/predict bitwise equal to the fold of single-layer forwards.",
+    "Sequence outputs are compared with the f64 reference network at 2e-4 of the output scale and skipped when a kink/tie is within 1e-4.",
+    "DESIGN.md 4/C02")
+add("C04", "proptest over (network, optimizer, objective, N, B, E, data); oracle = replayed reference trainer built from public pieces",
+    "4 000 (thorough 120 000) training runs incl. B = 1, B not dividing N, B > N, 1-4 epochs, all five optimizers, all seven objectives; learn()'s final weights and loss vector must equal ordered mini-batch gradient-sum descent replayed by the harness (bit-identical today, accepted within 1e-4 rel).",
+    "The replay shares the per-sample gradient with the library on purpose (C01 owns it); feedback blocks and dropout are excluded here (C10 / C09).",
+    "DESIGN.md 4/C04")
+add("C05", "metamorphic schedule exploration: dedicated rayon pools with 1..48 threads x injected delay plans x repetitions, fresh network per run; bitwise comparison with the 1-thread run",
+    "100 (thorough 2 000) generated networks with every layer kind, dropout, feedback blocks with skips, x 6 (11) schedules each; training with validation, validate() and predict_batch() over > 64 inputs must be bit-identical to the 1-thread run of a freshly built identical network. Explores schedule classes, not interleavings.",
+    "rayon's scheduler is not owned: thread counts, repetitions and delays at the per-sample hooks are varied; decides the realistic mechanisms (order-dependent float reduction, unordered collection, per-instance hash order), cannot exclude a dependence needing one particular interleaving.",
+    "DESIGN.md 4/C05")
+add("C08", "proptest over raw layer-request sequences next to an independent shape model; Display-text announcement parsing; identity-network round trip across flat<->spatial transitions",
+    "60 000 (thorough 2 000 000) request sequences (valid and invalid, dense widths incl. non-squares, paddings up to kernel+1, 1-pixel inputs): model-valid requests must be accepted and announced as the standard formulas say, non-square flat widths must be rejected in front of spatial layers, forward produces the announced shapes, gradient shapes equal parameter shapes; identity networks reproduce the row-major sequence bitwise.",
+    "Requests whose effective kernel does not fit are outside the property and are not submitted.",
+    "DESIGN.md 4/C08")
+add("C09", "differential testing against a dropout-free twin network over generated architectures, dropout patterns and epoch counts",
+    "4 000 (thorough 120 000) generated networks with dropout on any subset of layers incl. inside feedback blocks, 1-3 epochs: after every e epochs predict, validate and the validation metrics reported by learn() itself must equal, bitwise, those of the twin without dropout holding the same weights.",
+    "Dropout masks are deterministic (the library seeds them with 12345), which is what makes the per-epoch differential exact.",
+    "DESIGN.md 4/C09")
+add("C10", "stateful history generation: block creation + optimizer + 1-4 learn() calls; invariant = all unrolled copies bit-identical, announced parameter count = model count",
+    "6 000 (thorough 200 000) histories over dense and kernel blocks, loops 1-4, four coupling accumulations, five optimizers; the tie invariant is asserted after creation and after every call. Loudly refused couplings (kernel blocks with subtract/multiply) and NaN-diverged runs are counted, not asserted.",
+    "Blocks with internal skips are generated in 1/4 of the cases; when their backward pass aborts on a shape assertion (a library limitation outside the listed properties) the case is discarded and counted.",
+    "DESIGN.md 4/C10")
+add("C11", "proptest over block specifications; oracle = statement-derived model composed from the library's own single-layer forwards and tensor operations",
+    "40 000 (thorough 1 000 000) blocks: flat and spatial, loops 1-4, four skip-flag combinations, five accumulations, with and without a following dense layer; predict within 2 ulp (bit-identical today) of the repeated, skip-combined sequence.",
+    "The model trusts the single-layer forwards (C02) and tensor arithmetic (C15).",
+    "DESIGN.md 4/C11")
+add("C12", "proptest over (network, objective, tolerance, N) with targets derived from the predictions; oracle recomputed from public pieces with interval semantics at the tolerance edge",
+    "3 000 (thorough 80 000) cases with N in {1, 2, 63, 64, 65, 127, 128, 129, 200} or random <= 300: validate loss = mean objective of predict within the summation bound, accuracy inside the interval allowed by the stated rule, predict_batch[i] == predict(x_i) bitwise and in order, predict == last activation of forward; run inside 3-thread rayon pools.",
+    "Components at exactly the tolerance and arg-max ties may count either way.",
+    "DESIGN.md 4/C12")
+add("C13", "history-invariant checking over generated exact loss trajectories (dyadic linear model), incl. plateaus with bit-equal losses",
+    "30 000 (thorough 1 000 000) training set-ups producing falling / rising / fall-then-rise / oscillating / plateau trajectories, tolerance 1-6, budget 1-14, with and without validation data; history lengths, never-continues-past and stops-only-if conditions, and weight equality with a validation-free run of exactly n epochs.",
+    "The stopping window is read as: the last `tolerance` recorded losses form a strictly increasing sequence.",
+    "DESIGN.md 4/C13")
+add("C16", "proptest over networks + connect() call sequences + accumulations; acceptance model, hand-composed forward model, and the C01 derivative oracle with skip connections in the f64 reference network",
+    "30 000 (thorough 600 000) cases incl. a = b, a = 0, repeated targets, shared sources, chains and flat<->spatial crossings; earlier connections must survive, distinct pairs must be accepted, predict must equal the composed model (<= 2 ulp), and with additive accumulation every parameter gradient must equal the numerical derivative.",
+    "When a source is itself a target both readings of 'the input fed to layer a' are accepted in the forward model; max-pool sources are refused by the library and not generated.",
+    "DESIGN.md 4/C16")
+add("C17", "proptest over loop configurations; oracle = statement-derived model from the library's own layer forwards; metamorphic twin (range repeated k+1 times) for overwrite",
+    "40 000 (thorough 1 000 000) networks with a looped range (dense, spatial, conv+pool, deconv+pool), prefix / suffix layers incl. a flattening dense layer, k 1-3, five accumulations, input skips on/off; prediction within 2 ulp (bit-identical today) of the accumulated repeated sub-network, and equal to the unrolled twin for overwrite.",
+    "One loop connection per network; loops over feedback blocks are refused by the library and not generated.",
+    "DESIGN.md 4/C17")
